@@ -80,7 +80,7 @@ def oracle_all(ctx, stores):
 
 def run(ctx):
     generic.run(ctx, "C01+C01pipe", ["avail0", "avail1", "avail2"],
-                dict(conforming=100, injected=60, flow=40, random=40, stack=200, fold=120, spswitch=60, loopslot=40, zeroreg=40), oracle=oracle_all, what="value analysis")
+                dict(conforming=100, injected=60, flow=40, random=40, stack=200, fold=120, spswitch=60, loopslot=40, zeroreg=40, ecallloop=20), oracle=oracle_all, what="value analysis")
 
 
 replay = generic.replay
